@@ -10,11 +10,12 @@
     plugin_tables_agree spellings_probed lower_model_exact
     graph_disabled_no_exec flag_only_affects_code_blocks parse_ignores_flag_without_code
     graph_disabled_completes_only_without_code graph_disabled_reachable_code_fails
+    graph_disabled_raises_syntax_error
     markup_parse_flag_only_at_code markup_parse_off_no_exec markup_parse_off_rejects
     markup_parse_off_error_kind text_parse_flag_only_at_code text_parse_off_no_exec
     text_parse_off_rejects
 -/
-import Genshi.Lemmas.ExecRoot
+import Genshi.Lemmas.ExecRaise
 import Genshi.Lemmas.ExecParse
 namespace Genshi.Props.C14
 open Genshi.Exec Genshi.Gen.Exec
@@ -289,6 +290,29 @@ theorem graph_disabled_reachable_code_fails (fuel pf : Nat) (cfg : Config) (root
   rw [hcode] at hn
   cases hn
 
+/-- **… constructing or loading such a template raises a template syntax error**: over a
+    well-formed include graph (every include names an existing file; acyclic — a rank decreases
+    along includes), with fuel beyond the rank of the root, a disabled run over a tree with a code
+    block anywhere in it ends in `TemplateSyntaxError` — not in "not found", not in a recursion
+    error, not in a configuration error — on every case the model covers. -/
+theorem graph_disabled_raises_syntax_error (fuel pf : Nat) (cfg : Config) (root : Root) (fs : FS)
+    (rn : Nat) (hist : List Nat) (rank : Nat → Nat) (hd : root.disabled cfg) (hwf : WellFormed fs rank)
+    (hroot : (fs.lookup rn).isSome = true) (hfuel : rank rn < fuel) (hpf : rank rn < pf)
+    (b : Nat) (f : File) (hb : Reaches fs rn b) (hf : fs.lookup b = some f) (hcode : noCode f.items = false)
+    (hmod : (run fuel pf cfg root fs rn hist).err ≠ some .unmodelled) :
+    ∃ n, (run fuel pf cfg root fs rn hist).err = some (.syntax n) := by
+  have hne := graph_disabled_reachable_code_fails fuel pf cfg root fs rn hist hd b f hb hf hcode
+  cases he : (run fuel pf cfg root fs rn hist).err with
+  | none => exact absurd he hne
+  | some e =>
+      have hk := run_err_kind fuel pf cfg root fs rn hist rank hd hwf hroot hfuel hpf e he
+      cases e with
+      | «syntax» n => exact ⟨n, rfl⟩
+      | unmodelled => exact absurd he hmod
+      | notFound n => cases hk
+      | diverge => cases hk
+      | config => cases hk
+
 /-! ### the two guarded parsers, function by function (`Genshi/Model/ExecParse.lean`) -/
 
 section ParseLevel
@@ -396,6 +420,36 @@ example : FsNoCode [(0, ⟨.markup, [.text 1, .incl 1 .text false]⟩), (1, ⟨.
     · have e0 : (n == 0) = false := by simpa using h0
       have e1 : (n == 1) = false := by simpa using h1
       simp [e0, e1] at h
+
+
+-- the hypotheses of `graph_disabled_raises_syntax_error` on a concrete tree (root includes a text
+-- template that holds the code block), and what the model computes for it
+def exFs3 : FS :=
+  [(0, ⟨.markup, [.text 1, .incl 1 .text false, .text 3]⟩), (1, ⟨.newtext, [.code 7 2, .expr 2]⟩)]
+
+example : WellFormed exFs3 (fun n => 1 - n) := by
+  constructor
+  · intro a f n p dyn hl hm
+    simp only [exFs3, List.lookup] at hl
+    by_cases h0 : a = 0
+    · subst h0; simp at hl; subst hl; simp at hm; obtain ⟨rfl, _, _⟩ := hm; rfl
+    · by_cases h1 : a = 1
+      · subst h1; simp at hl; subst hl; simp at hm
+      · have e0 : (a == 0) = false := by simpa using h0
+        have e1 : (a == 1) = false := by simpa using h1
+        simp [e0, e1] at hl
+  · intro a b ⟨f, p, dyn, hl, hm⟩
+    simp only [exFs3, List.lookup] at hl
+    by_cases h0 : a = 0
+    · subst h0; simp at hl; subst hl; simp at hm; obtain ⟨rfl, _, _⟩ := hm; decide
+    · by_cases h1 : a = 1
+      · subst h1; simp at hl; subst hl; simp at hm
+      · have e0 : (a == 0) = false := by simpa using h0
+        have e1 : (a == 1) = false := by simpa using h1
+        simp [e0, e1] at hl
+
+example : (run 2 2 ⟨.dflt, .dflt, .str ['O', 'f', 'F'], false⟩ (.pluginFile .markup) exFs3 0 []).err
+    = some (.syntax 1) := by decide
 
 end Genshi.Props.C14
 
